@@ -121,6 +121,23 @@ void do_op(int t, const OpSpec &o) {
             ret(t, 0);
             break;
         }
+        case 'V': {   // a one-shot observer: it invalidates itself (SelfView) at the end of its first delivery
+            call(t, "subscribe1", o.pat, o.id, 0);
+            int id = o.id;
+            auto sub = g_router->subscribe<int>(key_of(o.pat), [id](tulz::Observer<int>::SelfView self, int v) {
+                int me = vs::self();
+                out().raw("\"e\":\"CbEnter\",\"t\":" + std::to_string(me) + ",\"op\":\"\",\"p\":[],\"id\":" + std::to_string(id) + ",\"v\":" + std::to_string(v) + ",\"res\":0");
+                vs::yield("cb");
+                self->invalidate();
+                out().raw("\"e\":\"CbExit\",\"t\":" + std::to_string(me) + ",\"op\":\"\",\"p\":[],\"id\":" + std::to_string(id) + ",\"v\":" + std::to_string(v) + ",\"res\":0");
+            });
+            {
+                Unrecorded u;
+                g_handles[id] = std::make_unique<USubscription>(std::move(sub));
+            }
+            ret(t, 0);
+            break;
+        }
         case 'U': {
             call(t, "unsubscribe", "-", o.id, 0);
             USubscription *h = nullptr;
@@ -243,7 +260,7 @@ void run_exec(const Execution &ex) {
     if (g_progs.empty()) g_progs.emplace_back();
     for (auto &prog : g_progs)
         for (auto &o : prog)
-            if (o.pat != "-" || o.kind == 'S') keys.emplace(o.pat, make_key(o.pat));
+            if (o.pat != "-" || o.kind == 'S' || o.kind == 'V') keys.emplace(o.pat, make_key(o.pat));
     keys.emplace("outer", make_key("outer"));
     g_keys = &keys;
     if (rd_access_yield) rd_access_yield((int) ex.cfg.num("accy", 0), (unsigned) ex.cfg.num("seed", 1));
